@@ -242,7 +242,10 @@ func runC09(c *Ctx, r *Rec) {
 			}
 			return true
 		})
-		r.check(bad == "" && n > 0, "D6-shuffle-swaps", c.fdName(fd), c.pos(fd.Pos()), fmt.Sprintf("%d element store(s), all swaps", n), bad+map[bool]string{true: "", false: "no swap found"}[n > 0])
+		if n == 0 {
+			bad = "skip: no element store in ShuffleValues itself (the exchange may live in a helper)"
+		}
+		r.verdict("D6-shuffle-swaps", c.fdName(fd), c.pos(fd.Pos()), fmt.Sprintf("%d element store(s), all swaps", n), bad)
 	}
 }
 
@@ -898,60 +901,147 @@ func checkReverse(c *Ctx, r *Rec, info *types.Info, fd *ast.FuncDecl) {
 		r.skip("D6-reverse", construct, c.pos(fd.Pos()), "cannot interpret the prefix")
 		return
 	}
-	// loop: for i := 0; i < half; i++
-	cond, _ := ast.Unparen(fs.Cond).(*ast.BinaryExpr)
+	// The reversal loop, in any of its forms (one index against len/2, two indices closing in):
+	// every iteration swaps the positions P and Q with P + Q = len-1, P starts at 0 and advances by
+	// one, and the loop runs exactly while P < Q.
+	var swap *ast.AssignStmt
+	nswaps, nstores := 0, 0
+	ast.Inspect(fs.Body, func(x ast.Node) bool {
+		if as, ok := x.(*ast.AssignStmt); ok {
+			for _, l := range as.Lhs {
+				if ix, ok := ast.Unparen(l).(*ast.IndexExpr); ok && isObj(info, ix.X, params[0]) {
+					nstores++
+				}
+			}
+			if isSwap(as) {
+				swap = as
+				nswaps++
+			}
+		}
+		return true
+	})
+	if swap == nil || nswaps != 1 || nstores != 2 {
+		r.skip("D6-reverse", construct, c.pos(fd.Pos()), "the loop body is not one swap of two positions of the array")
+		return
+	}
+	// loop variables: assigned by the init statement
+	initAs, ok := fs.Init.(*ast.AssignStmt)
+	if !ok || len(initAs.Lhs) != len(initAs.Rhs) {
+		r.skip("D6-reverse", construct, c.pos(fd.Pos()), "the loop's init statement is not a plain assignment")
+		return
+	}
+	st1 := &symState{vars: map[string]Val{}}
+	for k2, v := range p0[0].State {
+		st1.vars[k2] = v
+	}
+	loopVars := map[string]*Lin{} // key -> initial value
+	for i, l := range initAs.Lhs {
+		o := identObj(info, l)
+		v := env.eval(st1, initAs.Rhs[i])
+		if o == nil || v.Lin == nil {
+			r.skip("D6-reverse", construct, c.pos(fd.Pos()), "a loop variable does not start at an integer form")
+			return
+		}
+		loopVars[objKey(o)] = v.Lin
+	}
+	// one iteration from a generic state: the loop variables are symbols of their own names
+	env2 := &symEnv{info: info, elemForms: true, resolve: env.resolve}
+	env2.base = Cube{n.scale(-1)}
+	env2.init = map[string]Val{}
+	for k2, v := range p0[0].State {
+		env2.init[k2] = v
+	}
+	subst := map[string]*Lin{}
+	for key, init := range loopVars {
+		name := strings.SplitN(key, "@", 2)[0]
+		env2.init[key] = Val{Lin: linSym(name)}
+		subst[name] = init
+	}
+	preSt := &symState{vars: map[string]Val{}}
+	for k2, v := range env2.init {
+		preSt.vars[k2] = v
+	}
+	ixP := ast.Unparen(swap.Lhs[0]).(*ast.IndexExpr)
+	ixQ := ast.Unparen(swap.Lhs[1]).(*ast.IndexExpr)
+	P, Q := env2.eval(preSt, ixP.Index).Lin, env2.eval(preSt, ixQ.Index).Lin
+	condV := env2.eval(preSt, fs.Cond)
+	iter := symRun(env2, &ast.BlockStmt{List: append(append([]ast.Stmt{}, fs.Body.List...), fs.Post)})
+	if P == nil || Q == nil || len(iter) != 1 || len(env2.problems) > 0 {
+		r.skip("D6-reverse", construct, c.pos(fd.Pos()), "the swapped positions or the step of the loop are not integer forms")
+		return
+	}
+	post := &symState{vars: iter[0].State}
+	P2, Q2 := env2.eval(post, ixP.Index).Lin, env2.eval(post, ixQ.Index).Lin
+	atInit := func(l *Lin) *Lin {
+		out := linConst(l.K)
+		for sname, coef := range l.C {
+			if v, ok := subst[sname]; ok {
+				out = out.add(v.scale(coef))
+			} else {
+				out = out.add(linSym(sname).scale(coef))
+			}
+		}
+		return out
+	}
 	var viol []string
-	if cond == nil || cond.Op != token.LSS {
-		viol = append(viol, "the loop condition is not `i < half`")
-	} else {
-		iObj := identObj(info, cond.X)
-		bound := env.eval(&symState{vars: p0[0].State}, cond.Y)
-		if bound.Lin == nil || !bound.Lin.equal(sym("half")) || badHalf {
-			viol = append(viol, fmt.Sprintf("the loop bound is %v, required len/2", bound))
+	// which of the two is the rising index
+	lowP, highQ := P, Q
+	low2, high2 := P2, Q2
+	if P2 != nil && Q2 != nil && Q2.equal(Q.plus(1)) {
+		lowP, highQ, low2, high2 = Q, P, Q2, P2
+	}
+	halfForm := false
+	for sname := range highQ.C {
+		if sname == "half" {
+			halfForm = true
 		}
-		if as, ok := fs.Init.(*ast.AssignStmt); !ok || len(as.Rhs) != 1 || info.Types[as.Rhs[0]].Value == nil || info.Types[as.Rhs[0]].Value.String() != "0" {
-			viol = append(viol, "the loop does not start at 0")
-		}
-		if st := stepOf(info, fs.Post, objKey(iObj), env); st != 1 {
-			viol = append(viol, "the loop does not step by one")
-		}
-		// body: one swap of [i] and [n-i-1]
-		env2 := &symEnv{info: info, elemForms: true, resolve: env.resolve}
-		i := sym("i")
-		env2.base = Cube{n.scale(-1), i.scale(-1), i.sub(sym("half")).plus(1), sym("half").scale(-1), sym("half").sub(n)} // 0<=i<half<=n
-		env2.init = map[string]Val{objKey(iObj): {Lin: i}}
-		for k2, v := range p0[0].State {
-			env2.init[k2] = v
-		}
-		paths := symRun(env2, fs.Body)
-		if len(env2.problems) > 0 || len(paths) != 1 {
-			viol = append(viol, "cannot interpret the loop body: "+strings.Join(env2.problems, "; "))
-		} else {
-			pn := params[0].Name()
-			a, b := fmt.Sprintf("%s[%s]", pn, i), fmt.Sprintf("%s[%s]", pn, n.sub(i).plus(-1))
-			want1 := []string{fmt.Sprintf("store %s = <%s>", a, b), fmt.Sprintf("store %s = <%s>", b, a)}
-			var stores []string
-			for _, cl := range paths[0].Calls {
-				if strings.HasPrefix(cl, "store ") {
-					stores = append(stores, cl)
-				}
-			}
-			okSwap := len(stores) == 2 && ((stores[0] == want1[0] && stores[1] == want1[1]) || (stores[0] == want1[1] && stores[1] == want1[0]))
-			swapStmt := false
-			ast.Inspect(fs.Body, func(x ast.Node) bool {
-				if as, ok := x.(*ast.AssignStmt); ok && isSwap(as) {
-					swapStmt = true
-				}
-				return true
-			})
-			if !okSwap || !swapStmt {
-				viol = append(viol, fmt.Sprintf("the body does %v, required the swap of positions i and len-1-i", stores))
+	}
+	_ = halfForm
+	sum0 := atInit(lowP.add(highQ))
+	if !sum0.equal(n.plus(-1)) {
+		viol = append(viol, fmt.Sprintf("the first iteration swaps the positions %v and %v: their sum is %v, required len-1 (mirror images)", atInit(lowP), atInit(highQ), sum0))
+	}
+	if low2 == nil || high2 == nil || !low2.add(high2).equal(lowP.add(highQ)) {
+		viol = append(viol, "from one iteration to the next the two swapped positions do not stay mirror images of each other (their sum changes)")
+	}
+	if low2 == nil || !low2.equal(lowP.plus(1)) {
+		viol = append(viol, fmt.Sprintf("the lower position moves from %v to %v in one iteration, required one step up", lowP, low2))
+	}
+	if !atInit(lowP).isConst() || atInit(lowP).K != 0 {
+		viol = append(viol, fmt.Sprintf("the lower position starts at %v, required 0", atInit(lowP)))
+	}
+	// the loop runs exactly while low < high
+	boundIsHalf := false
+	if be, ok := ast.Unparen(fs.Cond).(*ast.BinaryExpr); ok {
+		if bv := env2.eval(preSt, be.Y); bv.Lin != nil && bv.Lin.equal(sym("half")) && be.Op == token.LSS {
+			if lv := env2.eval(preSt, be.X); lv.Lin != nil && lv.Lin.equal(lowP) {
+				boundIsHalf = true
 			}
 		}
+	}
+	switch {
+	case boundIsHalf:
+		if badHalf {
+			viol = append(viol, "the loop bound is not len/2: for some lengths the innermost pair is not swapped (or swapped twice)")
+		}
+	case condV.B != nil:
+		inv := append(Cube{}, env2.base...)
+		for _, cb := range dnf(eq(lowP.add(highQ), n.plus(-1))) {
+			inv = append(inv, cb...)
+		}
+		if s1, d1 := satF(inv, and(condV.B, fNotOf(lt(lowP, highQ)))); s1 || !d1 {
+			viol = append(viol, "the loop can run although the lower position has reached the upper one: a pair is swapped back")
+		}
+		if s2, d2 := satF(inv, and(fNotOf(condV.B), lt(lowP, highQ))); s2 || !d2 {
+			viol = append(viol, "the loop can stop while the lower position is still below the upper one: the innermost pair(s) stay unswapped")
+		}
+	default:
+		r.skip("D6-reverse", construct, c.pos(fd.Pos()), "the loop condition is not a comparison of integer forms")
+		return
 	}
 	if len(viol) > 0 {
 		r.fail("D6-reverse", construct, c.pos(fd.Pos()), strings.Join(viol, " | "))
 	} else {
-		r.ok("D6-reverse", construct, c.pos(fd.Pos()), "for i in [0, len/2): swap(values[i], values[len-1-i])")
+		r.ok("D6-reverse", construct, c.pos(fd.Pos()), "swaps mirror-image positions from the outside in, exactly while the lower one is below the upper one")
 	}
 }
